@@ -57,7 +57,14 @@ class CancelScenario(FaultEnumScenario):
             w.local.cancel_log = []
         # jobs of targets that are neither selected nor downstream of a selected target (a scheduler may
         # legitimately cancel jobs whose prerequisite was cancelled)
-        affected = w.model.downstream(set(selected))
+        # ... nor downstream of a job that an EARLIER invocation asked to cancel (that cancellation may still
+        # be working its way through the scheduler)
+        if w.local is not None:
+            earlier = {w.local.jobs[ref]["name"] for ref in w.local.cancel_requested if ref in w.local.jobs}
+        else:
+            earlier = {w.cluster.jobs[j].name for j in w.cancel_requested_ids if j in w.cluster.jobs}
+        earlier &= set(w.model.targets)
+        affected = w.model.downstream(set(selected) | earlier)
         others_live = {n: w.jref(n) for n in w.model.targets if n not in affected and w.jref(n) is not None
                        and w.job_phase(w.jref(n)) in ("pending", "running")}
         res = w.gwf(argv, op.get("cwd", "root"), stdin=stdin, cmd_faults=fault.get("cmd_faults", ()))
